@@ -150,6 +150,8 @@ pub struct World {
     pub tw_drops: i64,
     pub next_tag: u64,
     pub alive: std::collections::BTreeSet<u32>,
+    /// children without drop glue and the address of their latest poll (0: not polled yet)
+    pub plain: std::collections::BTreeMap<u32, usize>,
     pub produced: i64,
     pub mute: bool,
     /// children the environment has completed (oneshot-like): they answer Ready at their next poll
@@ -195,6 +197,7 @@ pub fn reset_world(hooklog: bool) {
         tw_drops: 0,
         next_tag: 0x9E37_79B9_7F4A_7C15,
         alive: Default::default(),
+        plain: Default::default(),
         produced: 0,
         mute: false,
         ready: Default::default(),
